@@ -314,5 +314,5 @@ func classify(col *vt.C, c *codec, f *treeFacts) {
 }
 
 func TestValueRoundTrip(t *testing.T) {
-	vt.Run(t, cVal, vt.N(16000, 400000), genVal, runVal)
+	vt.Run(t, cVal, vt.N(12000, 400000), genVal, runVal)
 }
